@@ -128,6 +128,23 @@ def check_group(sg, res, seed):
                 return True
         return False
 
+    def table_digest():
+        import hashlib
+
+        h = hashlib.sha1()
+        h.update(repr(sorted(SPACE_GROUP_INFO[sg].items())).encode())
+        for l in sorted(WYCKOFF_SETS[sg]):
+            w = WYCKOFF_SETS[sg][l]
+            if l == "translations":
+                h.update(np.asarray(w, float).tobytes())
+            else:
+                h.update(l.encode() + np.asarray(w["matrices"], float).tobytes() + np.asarray(w["constants"], float).tobytes() + repr(w["expressions"]).encode() + repr(sorted(w["variables"])).encode())
+        for nz in NORM.get(sg, []):
+            h.update(np.asarray(nz["transformation"], float).tobytes() + repr(sorted(nz["permutations"].items())).encode())
+        return h.hexdigest()
+
+    digest_before = table_digest()
+
     # ---- 1. SPACE_GROUP_INFO
     info = SPACE_GROUP_INFO[sg]
     system = sym.system_of(sg)
@@ -224,6 +241,17 @@ def check_group(sg, res, seed):
                             V("c14.letter_direct", sigL, "group %d: probe on tabulated letter %r (identity standardisation) gets spglib letter %r" % (sg, letter, sorted(spl)))
                     else:
                         res.counters["probe_restandardised"] += 1
+                # use of the tables by the analyser (parameter solving reads matrices/constants) must not alter them
+                if len(at) <= 300:
+                    try:
+                        from matid.symmetry import SymmetryAnalyzer
+
+                        an_ = SymmetryAnalyzer(at, 1e-3)
+                        an_.get_wyckoff_sets_conventional(True)
+                        an_.get_material_id()
+                        res.counters["transitions"] += 1
+                    except Exception:
+                        pass  # C08's business
             else:
                 res.notes["probe_too_large"] += 1
         except Exception as e:
@@ -294,6 +322,10 @@ def check_group(sg, res, seed):
             V("c14.getters", {}, "crystal of group %d reported as %r, International Tables: %r" % (sg, got, want), got, want)
     except Exception as e:
         V("c14.getters_exception", {}, "group %d: public getters raised %r" % (sg, e))
+
+    # ---- 5. the tables are data: analysing crystals of the group must leave them unchanged
+    if table_digest() != digest_before:
+        V("c14.table_mutated", {}, "the tables of group %d changed while crystals of the group were being analysed (entries are modified in place by their users)" % sg)
 
 
 def run_shard(shard, tier, seed):
